@@ -241,8 +241,12 @@ def search_meshes(rng, thorough):
                 tag = name + "+motion+relabel"
             a = rng.normal(size=3)
             a /= np.linalg.norm(a)
-            # coarse non-convex meshes converge more slowly (adjacent elements face each other): two more orders
-            o = orders + [(orders[-1][0] + 2, orders[-1][1] + 2)] if name in M.HARD else orders
+            # coarse non-convex meshes: besides slower singular convergence (adjacent elements face each other) they
+            # have NON-adjacent elements that nearly touch (dented octahedron: apex at distance 0.35 from opposite faces
+            # of diameter 1.4), where the REGULAR rule is the limit: measured per pair class at (14,14) the error of K is
+            # 1.9e-7 on non-adjacent pairs against <= 1e-8 on all singular classes, and it vanishes with regular order 20.
+            # So on these meshes the regular order is raised to the top of the triangle tables (20).
+            o = orders + [(16, 12), (20, 14)] if name in M.HARD else orders
             out.append((tag, name, v, e, a, float(rng.normal()), o))
     return out
 
